@@ -112,7 +112,7 @@ Proof.
     + unfold run_tx in Hstep. destruct (validate_basic m) eqn:Hv; [|discriminate].
       destruct (handle _ m) as [x| |] eqn:H; try discriminate. injection Hstep as <-.
       eapply nao_handle; [apply kinv_clear; exact Hi| |exact Hv|exact H]. eapply nao_frame; [| |exact A]; reflexivity.
-    + injection Hstep as <-. apply (fold_left_inv nodes_addr_ok).
+    + destruct (forallb pchange_valid _); [|discriminate]. injection Hstep as <-. apply (fold_left_inv nodes_addr_ok).
       * intros x c Hx. pose proof (apply_pchange_keeps x c). eapply nao_frame; [| |exact Hx]; keeps_solve.
       * eapply nao_frame; [| |exact A]; reflexivity.
     + destruct (end_block _) as [x| |] eqn:H; try discriminate. injection Hstep as <-.
@@ -131,7 +131,7 @@ Proof.
     + unfold run_tx in Hstep. destruct (validate_basic m) eqn:Hv; [|discriminate].
       destruct (handle _ m) as [x| |] eqn:H; try discriminate. injection Hstep as <-.
       eapply swaps_handle; [|exact Hv|exact H]. exact C.
-    + injection Hstep as <-. unfold swap_store_ok.
+    + destruct (forallb pchange_valid _); [|discriminate]. injection Hstep as <-. unfold swap_store_ok.
       replace (swaps (fold_left apply_pchange cs (clear_events s))) with (swaps s); [exact C|]. symmetry.
       apply (fold_left_inv (fun y => swaps y = swaps s)); [|reflexivity]. intros y c Hy. pose proof (apply_pchange_keeps y c). rewrite <- Hy. keeps_solve.
     + destruct (end_block _) as [x| |] eqn:H; try discriminate. injection Hstep as <-. apply end_block_keeps in H.
@@ -145,7 +145,7 @@ Proof.
     + unfold run_tx in Hstep. destruct (validate_basic m); [|discriminate].
       destruct (handle _ m) as [x| |] eqn:H; try discriminate. injection Hstep as <-. apply handle_keeps in H.
       unfold infl_store_ok. replace (inflations x) with (inflations s) by (symmetry; keeps_solve). exact D.
-    + injection Hstep as <-. unfold infl_store_ok.
+    + destruct (forallb pchange_valid _); [|discriminate]. injection Hstep as <-. unfold infl_store_ok.
       replace (inflations (fold_left apply_pchange cs (clear_events s))) with (inflations s); [exact D|]. symmetry.
       apply (fold_left_inv (fun y => inflations y = inflations s)); [|reflexivity]. intros y c Hy. pose proof (apply_pchange_keeps y c). rewrite <- Hy. keeps_solve.
     + destruct (end_block _) as [x| |] eqn:H; try discriminate. injection Hstep as <-. apply end_block_keeps in H.
